@@ -56,13 +56,20 @@ SETTINGS_EQ = ("self.ignore_edge_lengths is other.ignore_edge_lengths and self.i
 COMPATIBLE = ("(" + SETTINGS_EQ + ") and (self._is_rooted_trees is other._is_rooted_trees "
               "or (len(other._tree_split_bitmasks) == 0 and isnone(other._is_rooted_trees)) or len(self._tree_split_bitmasks) == 0)")
 
-SD_MODS = ["SplitDistribution.split_counts[*]", "SplitDistribution.total_trees_counted[*]", "SplitDistribution.sum_of_tree_weights[*]",
-           "SplitDistribution._trees_counted_for_summaries[*]", "SplitDistribution.use_tree_weights[*]"]
+# (the receiver's OWN distribution: every other distribution -- the argument's in particular -- keeps its counts, which callers such as
+# __add__, that merge twice, rely on)
+SD_MODS = ["self._split_distribution.split_counts", "self._split_distribution.total_trees_counted", "self._split_distribution.sum_of_tree_weights",
+           "self._split_distribution._trees_counted_for_summaries", "self._split_distribution.use_tree_weights"]
 
 
 def _cnt(x, k):
     return "ite(has({x}.split_counts, {k}), get({x}.split_counts, {k}), 0.0)".format(x=x, k=k)
 
+
+ARG_KEPT = ("forall_int(lambda s: has({o}._split_distribution.split_counts, s) == old(has({o}._split_distribution.split_counts, s)) and "
+            "get({o}._split_distribution.split_counts, s) == old(get({o}._split_distribution.split_counts, s))) and "
+            "{o}._split_distribution.total_trees_counted == old({o}._split_distribution.total_trees_counted) and "
+            "{o}._split_distribution.sum_of_tree_weights == old({o}._split_distribution.sum_of_tree_weights)")
 
 ALLOWED_ADD = ("TaxonNamespaceIdentityError", "MixedRootingError", "*")
 
@@ -71,12 +78,11 @@ CONTRACTS = [
              requires=aligned("self") + " and " + aligned("other") + " and self != other and " + COMPATIBLE +
                       # every TreeArray owns its SplitDistribution (set once in __init__)
                       " and self._split_distribution != other._split_distribution",
-             modifies=LISTS + ["self._is_rooted_trees", "self.ignore_edge_lengths", "self.ignore_node_ages", "self.use_tree_weights",
-                               "SplitDistribution.split_counts[*]", "SplitDistribution.total_trees_counted[*]",
-                               "SplitDistribution.sum_of_tree_weights[*]", "SplitDistribution._trees_counted_for_summaries[*]",
-                               "SplitDistribution.use_tree_weights[*]"],
+             modifies=LISTS + ["self._is_rooted_trees", "self.ignore_edge_lengths", "self.ignore_node_ages", "self.use_tree_weights"] + SD_MODS +
+                      ["other._split_distribution.split_counts"],
              inline=("__len__",), frame=False,
              ensures={"aligned": aligned("self"),
+                      "argument-summary-untouched": ARG_KEPT.format(o="other"),
                       "concatenated": grown("self", "len(other._tree_split_bitmasks)"),
                       "other-unchanged": aligned("other") + " and len(other._tree_split_bitmasks) == old(len(other._tree_split_bitmasks))",
                       # the abstract view of the sample (Merge.lean): componentwise addition
@@ -95,8 +101,9 @@ CONTRACTS = [
                       "or (len(tree_array._tree_split_bitmasks) == 0 and isnone(tree_array._is_rooted_trees)) "
                       "or (len(self._tree_split_bitmasks) == 0 and isnone(self._is_rooted_trees))) "
                       "and self._split_distribution != tree_array._split_distribution",
-             modifies=LISTS + ["self._is_rooted_trees"] + SD_MODS, frame=False, inline=("__len__",),
+             modifies=LISTS + ["self._is_rooted_trees"] + SD_MODS + ["tree_array._split_distribution.split_counts"], frame=False, inline=("__len__",),
              ensures={"aligned": aligned("self"), "concatenated": grown("self", "len(tree_array._tree_split_bitmasks)"), "returns-self": "result == self",
+                      "argument-summary-untouched": ARG_KEPT.format(o="tree_array"),
                       "summary-merged[counts]": "forall_int(lambda s: {now} == old({now}) + old({oth}))".format(
                           now=_cnt("self._split_distribution", "s"), oth=_cnt("tree_array._split_distribution", "s")),
                       "summary-merged[trees]": "self._split_distribution.total_trees_counted == old(self._split_distribution.total_trees_counted) "
@@ -114,8 +121,9 @@ CONTRACTS = [
                       "or (len(tree_array._tree_split_bitmasks) == 0 and isnone(tree_array._is_rooted_trees)) "
                       "or (len(self._tree_split_bitmasks) == 0 and isnone(self._is_rooted_trees))) "
                       "and self._split_distribution != tree_array._split_distribution",
-             modifies=LISTS + ["self._is_rooted_trees"] + SD_MODS, frame=False, inline=("__len__",),
+             modifies=LISTS + ["self._is_rooted_trees"] + SD_MODS + ["tree_array._split_distribution.split_counts"], frame=False, inline=("__len__",),
              ensures={"aligned": aligned("self"), "concatenated": grown("self", "len(tree_array._tree_split_bitmasks)"), "returns-self": "result == self",
+                      "argument-summary-untouched": ARG_KEPT.format(o="tree_array"),
                       "summary-merged[counts]": "forall_int(lambda s: {now} == old({now}) + old({oth}))".format(
                           now=_cnt("self._split_distribution", "s"), oth=_cnt("tree_array._split_distribution", "s")),
                       "summary-merged[trees]": "self._split_distribution.total_trees_counted == old(self._split_distribution.total_trees_counted) "
@@ -142,17 +150,60 @@ CONTRACTS = [
 ]
 
 
+# ---- a + b: a NEW collection (TreeArray.__init__: ASSUMED allocation contract -- an empty collection with the settings given and a
+# distribution of its own), into which both operands are merged; the operands keep their trees and their summaries
+def lens_eq(x, expr):
+    return " and ".join("len({x}.{f}) == {e}".format(x=x, f=f, e=expr) for f in ("_tree_split_bitmasks", "_tree_edge_lengths", "_tree_leafset_bitmasks", "_tree_weights"))
+TA_INIT = Contract(TC + ":TreeArray.__init__", types={"taxon_namespace": "ref:TaxonNamespace", "is_rooted_trees": "opt bool", "ignore_edge_lengths": "opt bool", "ignore_node_ages": "opt bool",
+                                                    "use_tree_weights": "opt bool", "ultrametricity_precision": "opaque", "is_force_max_age": "opaque", "is_force_min_age": "opaque",
+                                                    "taxon_label_age_map": "opaque", "is_bipartitions_mutable": "opaque"},
+                requires="True", assumed=True, frame=False,
+                modifies=["self._tree_split_bitmasks", "self._tree_edge_lengths", "self._tree_leafset_bitmasks", "self._tree_weights", "self._is_rooted_trees",
+                          "self.ignore_edge_lengths", "self.ignore_node_ages", "self.use_tree_weights", "self._split_distribution", "self.taxon_namespace"] + SD_MODS,
+                ensures={"an-empty-collection-with-the-settings-given": lens_eq("self", "0") + " and self.taxon_namespace == taxon_namespace and self._is_rooted_trees is is_rooted_trees "
+                         "and self.ignore_edge_lengths is ignore_edge_lengths and self.ignore_node_ages is ignore_node_ages and self.use_tree_weights is use_tree_weights",
+                         "its-own-empty-distribution": "not isnone(self._split_distribution) and forall_ref('TreeArray', lambda a: implies(a != self, a._split_distribution != self._split_distribution)) and "
+                                                       "forall_int(lambda s: not has(self._split_distribution.split_counts, s)) and self._split_distribution.total_trees_counted == 0 "
+                                                       "and self._split_distribution.sum_of_tree_weights == 0.0",
+                         "others-untouched": "forall_ref('TreeArray', lambda a: implies(a != self, " + lens_eq("a", "old(len(a._tree_split_bitmasks))").replace("old(len(a._tree_split_bitmasks))", "old(len(a._tree_split_bitmasks))") + "))"})
+COMPAT = ("self != other and self.taxon_namespace == other.taxon_namespace and self.ignore_edge_lengths is other.ignore_edge_lengths and self.ignore_node_ages is other.ignore_node_ages "
+          "and self.use_tree_weights is other.use_tree_weights and (self._is_rooted_trees is other._is_rooted_trees or (len(other._tree_split_bitmasks) == 0 and isnone(other._is_rooted_trees))) "
+          "and self._split_distribution != other._split_distribution and not isnone(self._split_distribution) and not isnone(other._split_distribution)")
+TA_ADD = Contract(TC + ":TreeArray.__add__", types={"other": "ref:TreeArray", "return": "ref:TreeArray"},
+               requires=aligned("self") + " and " + aligned("other") + " and " + COMPAT,
+               modifies=["TreeArray._tree_split_bitmasks[*]", "TreeArray._tree_edge_lengths[*]", "TreeArray._tree_leafset_bitmasks[*]", "TreeArray._tree_weights[*]",
+                         "TreeArray._is_rooted_trees[*]", "TreeArray._split_distribution[*]", "TreeArray.taxon_namespace[*]", "TreeArray.ignore_edge_lengths[*]",
+                         "TreeArray.ignore_node_ages[*]", "TreeArray.use_tree_weights[*]"] + SD_MODS, frame=False,
+               ensures={"a-new-collection": "result != self and result != other",
+                        "aligned": aligned("result"),
+                        "concatenated": lens_eq("result", "old(len(self._tree_split_bitmasks)) + old(len(other._tree_split_bitmasks))"),
+                        "operands-keep-their-trees": lens_eq("self", "old(len(self._tree_split_bitmasks))") + " and " + lens_eq("other", "old(len(other._tree_split_bitmasks))"),
+                        "summary-merged[counts]": "forall_int(lambda s: {r} == old({a}) + old({b}))".format(r=_cnt("result._split_distribution", "s"), a=_cnt("self._split_distribution", "s"), b=_cnt("other._split_distribution", "s")),
+                        "summary-merged[trees]": "result._split_distribution.total_trees_counted == old(self._split_distribution.total_trees_counted) + old(other._split_distribution.total_trees_counted)"})
+
+
 class TAExecutor(Executor2):
     lenient = True
 
 
 def _sd_update():
+    """C05's contract of SplitDistribution.update, the accumulator part (counts and totals): the summary-table cache protocol that C05 also
+    proves of it is about fields this suite does not model"""
+    import copy
     from contracts import C05
-    return [c for c in C05.CONTRACTS if c.name == "SplitDistribution.update"]
+    out = []
+    for c in C05.CONTRACTS:
+        if c.name == "SplitDistribution.update":
+            c2 = copy.copy(c)
+            c2.requires = getattr(c, "requires_core", c.requires)
+            c2.modifies = list(getattr(c, "modifies_core", c.modifies))
+            c2.ensures = dict((k, v) for k, v in c.ensures_items() if k != "summary-cache-protocol")
+            out.append(c2)
+    return out
 
 
 SD_UPDATE = _sd_update()
-SUITE = Suite(SCHEMA, [TC, "dendropy.datamodel.treemodel._tree"], CONTRACTS + SD_UPDATE, executor_cls=TAExecutor)
+SUITE = Suite(SCHEMA, [TC, "dendropy.datamodel.treemodel._tree"], CONTRACTS + SD_UPDATE + [TA_INIT, TA_ADD], executor_cls=TAExecutor)
 
 
 # ----------------------------------------------------------------------------- representation ownership (syntactic)
@@ -331,8 +382,9 @@ def t1(ctx):
                "sumtrees.end-of-work-not-inferred-from-an-empty-queue); the schedule is an arbitrary arrival order of update() calls, which is what "
                "the update contract quantifies over")
     from dpvc import replay_c06
-    for c in CONTRACTS:
+    for c in CONTRACTS + [TA_ADD]:
         verify_contract(ctx, SUITE, c, sentinels=False, replay=replay_c06.replay_treearray)
+    validate_constructor_natively(ctx)
     from contracts import C05
     for c in SD_UPDATE:
         verify_contract(ctx, SUITE, c, sentinels=False, replay=dreplay.replay_by_search(C05._states))
@@ -343,6 +395,40 @@ def t1(ctx):
                                                    "edge-length / node-age multisets per split: bounded (T2) only",
                          "merge_partition_irrelevant": "as above",
                          "merge_empty_block": "an empty array has the zero view: SplitDistribution.__init__ (T2: idle-worker scope)"})
+
+
+def validate_constructor_natively(ctx):
+    """the ASSUMED contract of TreeArray.__init__ (TA_INIT) on every combination of the settings it names (bounded; never counted as proved)"""
+    import itertools
+    import dendropy
+    sc = "assumed-constructor@TreeArray"
+    ctx.scope(sc, rule="TreeArray(taxon_namespace, is_rooted_trees, ignore_edge_lengths, ignore_node_ages, use_tree_weights) for every combination of "
+                       "None/True/False x bool^3, next to an existing non-empty array: four empty lists of its own, the settings as given, a distribution "
+                       "of its own with no split and zero totals, the existing array untouched", exhaustive=True)
+    ns = dendropy.TaxonNamespace(["A", "B", "C", "D"])
+    other = dendropy.TreeArray(taxon_namespace=ns)
+    other.read(data="((A,B),(C,D));((A,C),(B,D));", schema="newick")
+    before = (list(other._tree_split_bitmasks), list(other._tree_leafset_bitmasks), list(other._tree_weights), dict(other._split_distribution.split_counts))
+    for rooted, iel, ina, utw in itertools.product((None, True, False), (True, False), (True, False), (True, False)):
+        key = "is_rooted_trees=%r ignore_edge_lengths=%r ignore_node_ages=%r use_tree_weights=%r" % (rooted, iel, ina, utw)
+        ctx.case(sc, key, True)
+        a = dendropy.TreeArray(taxon_namespace=ns, is_rooted_trees=rooted, ignore_edge_lengths=iel, ignore_node_ages=ina, use_tree_weights=utw)
+        lists = [a._tree_split_bitmasks, a._tree_edge_lengths, a._tree_leafset_bitmasks, a._tree_weights]
+        sd = a._split_distribution
+        bad = None
+        if any(l != [] for l in lists) or len(set(map(id, lists))) != 4 or any(l is m for l in lists for m in (other._tree_split_bitmasks, other._tree_edge_lengths,
+                                                                                                          other._tree_leafset_bitmasks, other._tree_weights)):
+            bad = "per-tree lists %r (not four empty lists of its own)" % (lists,)
+        elif (a.taxon_namespace is not ns or a._is_rooted_trees is not rooted or a.ignore_edge_lengths is not iel or a.ignore_node_ages is not ina
+              or a.use_tree_weights is not utw):
+            bad = "settings kept as (%r, %r, %r, %r)" % (a._is_rooted_trees, a.ignore_edge_lengths, a.ignore_node_ages, a.use_tree_weights)
+        elif sd is None or sd is other._split_distribution or sd.split_counts or sd.total_trees_counted != 0 or sd.sum_of_tree_weights != 0.0:
+            bad = "distribution: shared or not empty"
+        elif before != (list(other._tree_split_bitmasks), list(other._tree_leafset_bitmasks), list(other._tree_weights), dict(other._split_distribution.split_counts)):
+            bad = "constructing a second array changed the first"
+        if bad:
+            ctx.fail("TreeArray.__init__.assumed-contract[an empty collection with the settings given]", dict(key=key), detail="TreeArray(%s): %s" % (key, bad))
+            return
 
 
 def replay(ctx, rec):
